@@ -456,19 +456,22 @@ fn c18_read_ns_n3() {
 // ---- name-bearing types, concrete skeletons --------------------------------
 // A fully symbolic message is only affordable up to 3-4 octets for the types
 // that decompress names (HARNESS_GUIDE: parse_compressed_name on 5 symbolic
-// octets costs 10 min / 13 GB), which is not even one MX with a pointer.  The
-// harnesses below therefore fix the STRUCTURE of the message (where labels,
-// pointers and fields are) per iteration of a concrete loop and leave
-// symbolic: every label content octet, every fixed-field octet, the octets
-// that follow the RDATA, and RDLENGTH (any u16, so "RDLENGTH ends exactly
-// where a name starts", one short, one long are all inside).
+// octets costs 10 min / 13 GB), which is not even one MX with a pointer, let
+// alone SRV or SOA.  The harnesses below fix the STRUCTURE of the message
+// (where labels, pointers and fields are) and RDLENGTH, and leave symbolic:
+// every label content octet, every fixed-field octet and the octets that
+// follow the RDATA.  (A symbolic RDLENGTH on top of a skeleton made CBMC's
+// symbolic execution itself diverge: no result in 25 minutes.)  Each costs
+// about two minutes, so there is one shape per harness: the name field is
+// "one label, then a pointer to the name at offset 0" (for the two-name
+// types: followed by a plain pointer), the case where the decompressed RDATA
+// is longer than RDLENGTH.
 //
 // message = \x01 L \x00  (a name "L." at offset 0; offset 2 is a root name)
 //           RDATA at cursor 3: <pre octets> <name field>... <post octets>
 //           two more octets
 const SK_MAX: usize = 48;
 const SK_CURSOR: usize = 3;
-const SK_VARIANTS: usize = 9;
 
 /// Writes name field `variant` at `at`; returns its length on the wire.
 fn put_name_field(m: &mut [u8; SK_MAX], at: usize, variant: usize) -> usize {
@@ -479,59 +482,24 @@ fn put_name_field(m: &mut [u8; SK_MAX], at: usize, variant: usize) -> usize {
             m[at + 1] = 0;
             2
         }
-        // pointer to the root name at offset 2
-        1 => {
-            m[at] = 0xc0;
-            m[at + 1] = 2;
-            2
-        }
-        // the root name
-        2 => {
-            m[at] = 0;
-            1
-        }
         // one label, root
-        3 => {
+        1 => {
             m[at] = 1;
             m[at + 2] = 0;
             3
         }
         // one label, then a pointer to the name at offset 0
-        4 => {
+        _ => {
             m[at] = 1;
             m[at + 2] = 0xc0;
-            m[at + 3] = 0;
-            4
-        }
-        // pointer to the start of the RDATA: a forward/self reference when
-        // the RDATA starts with this name, a pointer into the fixed fields
-        // (symbolic octets) otherwise
-        5 => {
-            m[at] = 0xc0;
-            m[at + 1] = SK_CURSOR as u8;
-            2
-        }
-        // a label that is cut off by the end of the field
-        6 => {
-            m[at] = 2;
-            2
-        }
-        // reserved label type
-        7 => {
-            m[at] = 0x40;
-            1
-        }
-        // a two-octet label, root
-        _ => {
-            m[at] = 2;
             m[at + 3] = 0;
             4
         }
     }
 }
 
-/// One RDATA with the given field layout and name-field variants.
-fn skeleton(class: u16, ty: u16, pre: usize, v1: usize, v2: Option<usize>, post: usize) -> ReadSeen {
+/// One RDATA with the given field layout; RDLENGTH = exact length + delta.
+fn skeleton(class: u16, ty: u16, pre: usize, v1: usize, v2: Option<usize>, post: usize, delta: isize) -> ReadSeen {
     let mut m: [u8; SK_MAX] = kani::any();
     m[0] = 1;
     m[2] = 0;
@@ -541,32 +509,303 @@ fn skeleton(class: u16, ty: u16, pre: usize, v1: usize, v2: Option<usize>, post:
         at += put_name_field(&mut m, at, v);
     }
     let n = at + post + 2;
-    let rdlength: u16 = kani::any();
-    let s = check_read(&m[..n], SK_CURSOR, rdlength, class, ty);
-    // the intended RDLENGTH is among the symbolic ones
-    kani::cover!(rdlength as usize == n - 2 - SK_CURSOR, "RDLENGTH covering exactly the fields");
-    s
+    let rdlength = ((n - 2 - SK_CURSOR) as isize + delta) as u16;
+    check_read(&m[..n], SK_CURSOR, rdlength, class, ty)
 }
 
-fn skeleton_one_name(class: u16, ty: u16, pre: usize, post: usize) {
-    let mut v = 0;
-    while v < SK_VARIANTS {
-        let s = skeleton(class, ty, pre, v, None, post);
-        kani::cover!(s.accepted && s.expanded, "RDATA with a decompressed name accepted");
-        kani::cover!(s.accepted && !s.expanded, "RDATA with an uncompressed name accepted");
-        kani::cover!(!s.eom && !s.accepted, "RDATA inside the message rejected");
-        kani::cover!(s.eom, "RDATA past the end of the message");
-        v += 1;
-    }
-}
-
-// @harness props=C18 panics=C18,C01 tier=quick mem=6 t=1200 fn="Rdata::read,Rdata::read_mx,helpers::prepare_to_read_rdata,Name::try_from_compressed,name::wire::parse_compressed_name,Rdata::validate_as_mx"
-//   bound="type MX, any class; 9 concrete message skeletons (name field: pointer, pointer to root, root, label, label+pointer, pointer into the preference field, truncated label, reserved label type, 2-octet label) after a 3-octet name pool; symbolic label contents, preference, trailing octets; cursor 3; RDLENGTH any u16; unwind 12"
-//   sym="label octets, fixed fields, rdlength:u16, class:u16" stubs="S7"
+// @harness props=C18 panics=C18,C01 tier=thorough mem=4 t=1200 fn="Rdata::read,Rdata::read_mx,helpers::prepare_to_read_rdata,Name::try_from_compressed,name::wire::parse_compressed_name,Rdata::validate"
+//   bound="type MX, any class; ONE message skeleton: 3-octet name pool, then at cursor 3 the RDATA with name field = label + pointer to the pool; RDLENGTH exact; symbolic label contents, fixed fields, trailing octets; unwind 12"
+//   sym="label octets, fixed-field octets, class:u16" stubs="S7"
 #[kani::proof]
 #[kani::unwind(12)]
 #[kani::stub(arrayvec::ArrayVec::try_extend_from_slice, try_extend_model)]
 fn c18_read_mx_skeleton() {
     let class: u16 = kani::any();
-    skeleton_one_name(class, 15, 2, 0);
+    let s = skeleton(class, 15, 2, 2, None, 0, 0);
+    assert!(s.accepted, "[C18] read accepts a well-formed compressed RDATA");
+    kani::cover!(s.accepted && s.expanded, "RDATA with a decompressed name accepted");
+}
+
+// @harness props=C18 panics=C18,C01 tier=thorough mem=4 t=1200 fn="Rdata::read,Rdata::read_in_srv,helpers::prepare_to_read_rdata,Name::try_from_compressed,name::wire::parse_compressed_name,Rdata::validate"
+//   bound="type SRV class IN; ONE message skeleton: 3-octet name pool, then at cursor 3 the RDATA with name field = label + pointer to the pool; RDLENGTH exact; symbolic label contents, fixed fields, trailing octets; unwind 16"
+//   sym="label octets, fixed-field octets" stubs="S7"
+#[kani::proof]
+#[kani::unwind(16)]
+#[kani::stub(arrayvec::ArrayVec::try_extend_from_slice, try_extend_model)]
+fn c18_read_srv_skeleton() {
+    let s = skeleton(IN, 33, 6, 2, None, 0, 0);
+    assert!(s.accepted, "[C18] read accepts a well-formed compressed RDATA");
+    kani::cover!(s.accepted && s.expanded, "RDATA with a decompressed name accepted");
+}
+
+// @harness props=C18 panics=C18,C01 tier=thorough mem=4 t=1200 fn="Rdata::read,Rdata::read_ch_a,helpers::prepare_to_read_rdata,Name::try_from_compressed,name::wire::parse_compressed_name,Rdata::validate"
+//   bound="type A class CH; ONE message skeleton: 3-octet name pool, then at cursor 3 the RDATA with name field = label + pointer to the pool; RDLENGTH exact; symbolic label contents, fixed fields, trailing octets; unwind 12"
+//   sym="label octets, fixed-field octets" stubs="S7"
+#[kani::proof]
+#[kani::unwind(12)]
+#[kani::stub(arrayvec::ArrayVec::try_extend_from_slice, try_extend_model)]
+fn c18_read_ch_a_skeleton() {
+    let s = skeleton(CH, 1, 0, 2, None, 2, 0);
+    assert!(s.accepted, "[C18] read accepts a well-formed compressed RDATA");
+    kani::cover!(s.accepted && s.expanded, "RDATA with a decompressed name accepted");
+}
+
+// @harness props=C18 panics=C18,C01 tier=thorough mem=4 t=1200 fn="Rdata::read,Rdata::read_minfo,helpers::prepare_to_read_rdata,Name::try_from_compressed,name::wire::parse_compressed_name,Rdata::validate"
+//   bound="type MINFO, any class; ONE message skeleton: 3-octet name pool, then at cursor 3 the RDATA with name field = label + pointer to the pool (second name: pointer to the pool); RDLENGTH exact; symbolic label contents, fixed fields, trailing octets; unwind 12"
+//   sym="label octets, fixed-field octets, class:u16" stubs="S7"
+#[kani::proof]
+#[kani::unwind(12)]
+#[kani::stub(arrayvec::ArrayVec::try_extend_from_slice, try_extend_model)]
+fn c18_read_minfo_skeleton() {
+    let class: u16 = kani::any();
+    let s = skeleton(class, 14, 0, 2, Some(0), 0, 0);
+    assert!(s.accepted, "[C18] read accepts a well-formed compressed RDATA");
+    kani::cover!(s.accepted && s.expanded, "RDATA with a decompressed name accepted");
+}
+
+// @harness props=C18 panics=C18,C01 tier=thorough mem=4 t=1200 fn="Rdata::read,Rdata::read_soa,helpers::prepare_to_read_rdata,Name::try_from_compressed,name::wire::parse_compressed_name,Rdata::validate"
+//   bound="type SOA, any class; ONE message skeleton: 3-octet name pool, then at cursor 3 the RDATA with name field = label + pointer to the pool (second name: pointer to the pool); RDLENGTH exact; symbolic label contents, fixed fields, trailing octets; unwind 34"
+//   sym="label octets, fixed-field octets, class:u16" stubs="S7"
+#[kani::proof]
+#[kani::unwind(34)]
+#[kani::stub(arrayvec::ArrayVec::try_extend_from_slice, try_extend_model)]
+fn c18_read_soa_skeleton() {
+    let class: u16 = kani::any();
+    let s = skeleton(class, 6, 0, 2, Some(0), 20, 0);
+    assert!(s.accepted, "[C18] read accepts a well-formed compressed RDATA");
+    kani::cover!(s.accepted && s.expanded, "RDATA with a decompressed name accepted");
+}
+
+// RDLENGTH one short / one long for the MX skeleton: the name no longer ends
+// exactly at the end of the RDATA.
+// @harness props=C18 panics=C18,C01 tier=thorough mem=4 t=1800 fn="Rdata::read,Rdata::read_mx,Name::try_from_compressed,name::wire::parse_compressed_name"
+//   bound="type MX, any class; the MX skeleton with RDLENGTH one less and one more than the fields; unwind 12"
+//   sym="label octets, fixed-field octets, class:u16" stubs="S7"
+#[kani::proof]
+#[kani::unwind(12)]
+#[kani::stub(arrayvec::ArrayVec::try_extend_from_slice, try_extend_model)]
+fn c18_read_mx_skeleton_off_by_one() {
+    let class: u16 = kani::any();
+    let s = skeleton(class, 15, 2, 2, None, 0, -1);
+    assert!(!s.accepted && !s.eom, "[C18] read rejects RDATA whose RDLENGTH cuts the name short");
+    let s = skeleton(class, 15, 2, 2, None, 0, 1);
+    assert!(!s.accepted && !s.eom, "[C18] read rejects RDATA with an octet left over after the name");
+    kani::cover!(true, "reached");
+}
+
+// RDLENGTH ending exactly where the embedded name starts, for the types whose
+// minimal RDATA does not fit a fully symbolic message: the documented
+// contract is an error, not a panic.
+// @harness props=C18 panics=C18,C01 tier=quick mem=4 t=900 fn="Rdata::read,Rdata::read_in_srv,Rdata::read_soa,Rdata::read_mx,Rdata::read_minfo,Rdata::read_ch_a,helpers::read_name_rdata,Name::try_from_compressed"
+//   bound="SRV with RDLENGTH 0..=6, and NS/MX/CH A/MINFO/SOA with RDLENGTH 0..=2 (MX), 0 (others): message of exactly 8 octets, all octet values; cursor 0..=9; unwind 10"
+//   sym="msg:[u8;8], cursor<=9, rdlength small" stubs="S7"
+#[kani::proof]
+#[kani::unwind(10)]
+#[kani::stub(arrayvec::ArrayVec::try_extend_from_slice, try_extend_model)]
+fn c18_read_rdlength_ends_at_name() {
+    let list: [(u16, u16, u16); 6] = [(IN, 33, 6), (IN, 2, 0), (IN, 15, 2), (CH, 1, 0), (IN, 14, 0), (IN, 6, 0)];
+    let mut i = 0;
+    while i < list.len() {
+        let (class, ty, max) = list[i];
+        let msg: [u8; 8] = kani::any();
+        let cursor: usize = kani::any();
+        kani::assume(cursor <= 9);
+        let rdlength: u16 = kani::any();
+        kani::assume(rdlength <= max);
+        let s = check_read(&msg, cursor, rdlength, class, ty);
+        assert!(!s.accepted, "[C18] RDATA that ends before its embedded name is rejected");
+        kani::cover!(!s.eom && rdlength == max, "RDLENGTH ends exactly where the name starts, inside the message");
+        kani::cover!(s.eom, "RDATA past the end of the message");
+        i += 1;
+    }
+}
+
+// ---- name-bearing types, every octet symbolic (continued) -------------------
+
+// @harness props=C18 panics=C18,C01 tier=thorough mem=10 t=2400 fn="Rdata::read,helpers::read_name_rdata,Name::try_from_compressed,name::wire::parse_compressed_name"
+//   bound="type NS, any class; message of exactly 4 octets, all octet values; cursor 0..=5; RDLENGTH any u16; unwind 6"
+//   sym="msg:[u8;4], cursor<=5, rdlength:u16, class:u16" stubs="S7"
+#[kani::proof]
+#[kani::unwind(6)]
+#[kani::stub(arrayvec::ArrayVec::try_extend_from_slice, try_extend_model)]
+fn c18_read_ns_n4() {
+    let class: u16 = kani::any();
+    let s = read_sym::<4>(class, 2);
+    kani::cover!(s.accepted && s.expanded, "NS whose name was decompressed accepted");
+    kani::cover!(s.accepted && s.out_len == 4, "NS with a two-octet label accepted");
+    kani::cover!(!s.eom && !s.accepted, "NS inside the message rejected");
+}
+
+// @harness props=C18 panics=C18,C01 tier=thorough mem=10 t=2400 fn="Rdata::read,Rdata::read_mx,Name::try_from_compressed,name::wire::parse_compressed_name"
+//   bound="type MX, any class; message of exactly 4 octets, all octet values; cursor 0..=5; RDLENGTH any u16; unwind 6"
+//   sym="msg:[u8;4], cursor<=5, rdlength:u16, class:u16" stubs="S7"
+#[kani::proof]
+#[kani::unwind(6)]
+#[kani::stub(arrayvec::ArrayVec::try_extend_from_slice, try_extend_model)]
+fn c18_read_mx_n4() {
+    let class: u16 = kani::any();
+    let s = read_sym::<4>(class, 15);
+    kani::cover!(s.accepted && s.expanded, "MX whose name was decompressed (pointer into the preference field) accepted");
+    kani::cover!(s.accepted && s.out_len == 3, "MX with a root exchange accepted");
+    kani::cover!(!s.eom && !s.accepted, "MX inside the message rejected");
+}
+
+// @harness props=C18 panics=C18,C01 tier=thorough mem=10 t=2400 fn="Rdata::read,Rdata::read_ch_a,Name::try_from_compressed,name::wire::parse_compressed_name"
+//   bound="type A class CH; message of exactly 4 octets, all octet values; cursor 0..=5; RDLENGTH any u16; unwind 6"
+//   sym="msg:[u8;4], cursor<=5, rdlength:u16" stubs="S7"
+#[kani::proof]
+#[kani::unwind(6)]
+#[kani::stub(arrayvec::ArrayVec::try_extend_from_slice, try_extend_model)]
+fn c18_read_ch_a_n4() {
+    let s = read_sym::<4>(CH, 1);
+    kani::cover!(s.accepted && s.expanded, "CH A whose name was decompressed accepted");
+    kani::cover!(s.accepted && s.out_len == 3, "CH A with a root name accepted");
+    kani::cover!(!s.eom && !s.accepted, "CH A inside the message rejected");
+}
+
+// @harness props=C18 panics=C18,C01 tier=thorough mem=10 t=2400 fn="Rdata::read,Rdata::read_minfo,Name::try_from_compressed,name::wire::parse_compressed_name"
+//   bound="type MINFO, any class; message of exactly 4 octets, all octet values; cursor 0..=5; RDLENGTH any u16; unwind 6"
+//   sym="msg:[u8;4], cursor<=5, rdlength:u16, class:u16" stubs="S7"
+#[kani::proof]
+#[kani::unwind(6)]
+#[kani::stub(arrayvec::ArrayVec::try_extend_from_slice, try_extend_model)]
+fn c18_read_minfo_n4() {
+    let class: u16 = kani::any();
+    let s = read_sym::<4>(class, 14);
+    kani::cover!(s.accepted && s.expanded, "MINFO with a decompressed name accepted");
+    kani::cover!(s.accepted && s.out_len == 2, "MINFO with two root names accepted");
+    kani::cover!(!s.eom && !s.accepted, "MINFO inside the message rejected");
+}
+
+// ---- the other single-name types --------------------------------------------
+
+// @harness props=C18 panics=C18,C01 tier=thorough mem=6 t=1200 fn="Rdata::read,helpers::read_name_rdata,Name::try_from_compressed,name::wire::parse_compressed_name"
+//   bound="type MD (3), any class; message of exactly 3 octets, all octet values; cursor 0..=4; RDLENGTH any u16; unwind 5"
+//   sym="msg:[u8;3], cursor<=4, rdlength:u16, class:u16" stubs="S7"
+#[kani::proof]
+#[kani::unwind(5)]
+#[kani::stub(arrayvec::ArrayVec::try_extend_from_slice, try_extend_model)]
+fn c18_read_md_n3() {
+    let class: u16 = kani::any();
+    let s = read_sym::<3>(class, 3);
+    kani::cover!(s.accepted && s.expanded, "RDATA whose name was decompressed accepted");
+    kani::cover!(s.accepted && s.out_len == 3, "RDATA with a one-label name accepted");
+    kani::cover!(!s.eom && !s.accepted, "RDATA inside the message rejected");
+}
+
+// @harness props=C18 panics=C18,C01 tier=thorough mem=6 t=1200 fn="Rdata::read,helpers::read_name_rdata,Name::try_from_compressed,name::wire::parse_compressed_name"
+//   bound="type MF (4), any class; message of exactly 3 octets, all octet values; cursor 0..=4; RDLENGTH any u16; unwind 5"
+//   sym="msg:[u8;3], cursor<=4, rdlength:u16, class:u16" stubs="S7"
+#[kani::proof]
+#[kani::unwind(5)]
+#[kani::stub(arrayvec::ArrayVec::try_extend_from_slice, try_extend_model)]
+fn c18_read_mf_n3() {
+    let class: u16 = kani::any();
+    let s = read_sym::<3>(class, 4);
+    kani::cover!(s.accepted && s.expanded, "RDATA whose name was decompressed accepted");
+    kani::cover!(s.accepted && s.out_len == 3, "RDATA with a one-label name accepted");
+    kani::cover!(!s.eom && !s.accepted, "RDATA inside the message rejected");
+}
+
+// @harness props=C18 panics=C18,C01 tier=thorough mem=6 t=1200 fn="Rdata::read,helpers::read_name_rdata,Name::try_from_compressed,name::wire::parse_compressed_name"
+//   bound="type CNAME (5), any class; message of exactly 3 octets, all octet values; cursor 0..=4; RDLENGTH any u16; unwind 5"
+//   sym="msg:[u8;3], cursor<=4, rdlength:u16, class:u16" stubs="S7"
+#[kani::proof]
+#[kani::unwind(5)]
+#[kani::stub(arrayvec::ArrayVec::try_extend_from_slice, try_extend_model)]
+fn c18_read_cname_n3() {
+    let class: u16 = kani::any();
+    let s = read_sym::<3>(class, 5);
+    kani::cover!(s.accepted && s.expanded, "RDATA whose name was decompressed accepted");
+    kani::cover!(s.accepted && s.out_len == 3, "RDATA with a one-label name accepted");
+    kani::cover!(!s.eom && !s.accepted, "RDATA inside the message rejected");
+}
+
+// @harness props=C18 panics=C18,C01 tier=thorough mem=6 t=1200 fn="Rdata::read,helpers::read_name_rdata,Name::try_from_compressed,name::wire::parse_compressed_name"
+//   bound="type MB (7), any class; message of exactly 3 octets, all octet values; cursor 0..=4; RDLENGTH any u16; unwind 5"
+//   sym="msg:[u8;3], cursor<=4, rdlength:u16, class:u16" stubs="S7"
+#[kani::proof]
+#[kani::unwind(5)]
+#[kani::stub(arrayvec::ArrayVec::try_extend_from_slice, try_extend_model)]
+fn c18_read_mb_n3() {
+    let class: u16 = kani::any();
+    let s = read_sym::<3>(class, 7);
+    kani::cover!(s.accepted && s.expanded, "RDATA whose name was decompressed accepted");
+    kani::cover!(s.accepted && s.out_len == 3, "RDATA with a one-label name accepted");
+    kani::cover!(!s.eom && !s.accepted, "RDATA inside the message rejected");
+}
+
+// @harness props=C18 panics=C18,C01 tier=thorough mem=6 t=1200 fn="Rdata::read,helpers::read_name_rdata,Name::try_from_compressed,name::wire::parse_compressed_name"
+//   bound="type MG (8), any class; message of exactly 3 octets, all octet values; cursor 0..=4; RDLENGTH any u16; unwind 5"
+//   sym="msg:[u8;3], cursor<=4, rdlength:u16, class:u16" stubs="S7"
+#[kani::proof]
+#[kani::unwind(5)]
+#[kani::stub(arrayvec::ArrayVec::try_extend_from_slice, try_extend_model)]
+fn c18_read_mg_n3() {
+    let class: u16 = kani::any();
+    let s = read_sym::<3>(class, 8);
+    kani::cover!(s.accepted && s.expanded, "RDATA whose name was decompressed accepted");
+    kani::cover!(s.accepted && s.out_len == 3, "RDATA with a one-label name accepted");
+    kani::cover!(!s.eom && !s.accepted, "RDATA inside the message rejected");
+}
+
+// @harness props=C18 panics=C18,C01 tier=thorough mem=6 t=1200 fn="Rdata::read,helpers::read_name_rdata,Name::try_from_compressed,name::wire::parse_compressed_name"
+//   bound="type MR (9), any class; message of exactly 3 octets, all octet values; cursor 0..=4; RDLENGTH any u16; unwind 5"
+//   sym="msg:[u8;3], cursor<=4, rdlength:u16, class:u16" stubs="S7"
+#[kani::proof]
+#[kani::unwind(5)]
+#[kani::stub(arrayvec::ArrayVec::try_extend_from_slice, try_extend_model)]
+fn c18_read_mr_n3() {
+    let class: u16 = kani::any();
+    let s = read_sym::<3>(class, 9);
+    kani::cover!(s.accepted && s.expanded, "RDATA whose name was decompressed accepted");
+    kani::cover!(s.accepted && s.out_len == 3, "RDATA with a one-label name accepted");
+    kani::cover!(!s.eom && !s.accepted, "RDATA inside the message rejected");
+}
+
+// @harness props=C18 panics=C18,C01 tier=thorough mem=6 t=1200 fn="Rdata::read,helpers::read_name_rdata,Name::try_from_compressed,name::wire::parse_compressed_name"
+//   bound="type PTR (12), any class; message of exactly 3 octets, all octet values; cursor 0..=4; RDLENGTH any u16; unwind 5"
+//   sym="msg:[u8;3], cursor<=4, rdlength:u16, class:u16" stubs="S7"
+#[kani::proof]
+#[kani::unwind(5)]
+#[kani::stub(arrayvec::ArrayVec::try_extend_from_slice, try_extend_model)]
+fn c18_read_ptr_n3() {
+    let class: u16 = kani::any();
+    let s = read_sym::<3>(class, 12);
+    kani::cover!(s.accepted && s.expanded, "RDATA whose name was decompressed accepted");
+    kani::cover!(s.accepted && s.out_len == 3, "RDATA with a one-label name accepted");
+    kani::cover!(!s.eom && !s.accepted, "RDATA inside the message rejected");
+}
+
+// ---- every class/type without a layout: opaque ------------------------------
+// With a symbolic type every arm of Rdata::read is encoded; the six
+// decompressing readers are replaced by a model that rejects everything.  For
+// a class/type without a layout the reference accepts every RDATA that lies
+// inside the message, so a dispatch into any of those arms would be caught
+// as "read rejects RDATA the reference accepts".
+
+fn rejecting_reader(_message: &[u8], _cursor: usize, _rdlength: u16) -> Result<Box<Rdata>, ReadRdataError> {
+    Err(ReadRdataError::Other)
+}
+
+// @harness props=C18 panics=C18,C01 tier=thorough mem=7 t=1800 fn="Rdata::read (dispatch),helpers::prepare_to_read_rdata"
+//   bound="EVERY class (u16) and type (u16) without a reference layout (NULL, A/WKS/AAAA/SRV outside their class, unknown types); message of exactly 5 octets, all octet values; cursor 0..=6; RDLENGTH any u16; unwind 7"
+//   sym="class:u16, type:u16, msg:[u8;5], cursor<=6, rdlength:u16" stubs="read_name_rdata/read_ch_a/read_soa/read_minfo/read_mx/read_in_srv -> reject (arms unreachable for these types)"
+#[kani::proof]
+#[kani::unwind(7)]
+#[kani::stub(helpers::read_name_rdata, rejecting_reader)]
+#[kani::stub(Rdata::read_ch_a, rejecting_reader)]
+#[kani::stub(Rdata::read_soa, rejecting_reader)]
+#[kani::stub(Rdata::read_minfo, rejecting_reader)]
+#[kani::stub(Rdata::read_mx, rejecting_reader)]
+#[kani::stub(Rdata::read_in_srv, rejecting_reader)]
+fn c18_read_unlisted_types() {
+    let class: u16 = kani::any();
+    let ty: u16 = kani::any();
+    kani::assume(!ref_supported(class, ty));
+    let s = read_sym::<5>(class, ty);
+    assert!(s.eom || s.accepted, "[C18] RDATA of a class/type without a layout is accepted as is");
+    kani::cover!(s.accepted && s.out_len == 5 && ty == 33 && class == CH, "SRV outside class IN read as opaque");
+    kani::cover!(s.accepted && ty == 10, "NULL read as opaque");
+    kani::cover!(s.eom, "RDATA past the end of the message");
 }
